@@ -40,22 +40,26 @@ Hex4(w) == Hex2(w \div 256) \o Hex2(w % 256)
 \* Rust prints a byte as `b as char`: the Unicode scalar U+00bb in UTF-8
 Utf8(b) == IF b < 128 THEN <<b>> ELSE <<192 + b \div 64, 128 + (b % 64)>>
 
-RECURSIVE FlatFrom(_, _)
-FlatFrom(chunks, k) == IF k > Len(chunks) THEN << >> ELSE chunks[k] \o FlatFrom(chunks, k + 1)
-Flat(chunks) == FlatFrom(chunks, 1)
+\* concatenation of a sequence of byte strings, by halving (n log n copying: the streams compared can be 1 MB long)
+RECURSIVE FlatRange(_, _, _)
+FlatRange(chunks, lo, hi) ==
+  IF lo > hi THEN << >>
+  ELSE IF lo = hi THEN chunks[lo]
+  ELSE LET mid == (lo + hi) \div 2 IN FlatRange(chunks, lo, mid) \o FlatRange(chunks, mid + 1, hi)
+Flat(chunks) == FlatRange(chunks, 1, Len(chunks))
 \* stdout chunks carry a tag saying which part of the driver wrote them
 FlatOut(out) == Flat([k \in 1 .. Len(out) |-> out[k].b])
 
 \* white-space normalisation used when comparing stdout: runs of blanks/tabs collapse to one
 \* blank, blanks before a line end disappear (the properties fix values and rows, not spacing)
 IsBlank(b) == b = SPC \/ b = TAB
-RECURSIVE NormFrom(_, _, _)
-NormFrom(s, k, pendingBlank) ==
-  IF k > Len(s) THEN << >>
-  ELSE IF IsBlank(s[k]) THEN NormFrom(s, k + 1, TRUE)
-  ELSE IF s[k] = NL THEN <<NL>> \o NormFrom(s, k + 1, FALSE)
-  ELSE (IF pendingBlank THEN <<SPC, s[k]>> ELSE <<s[k]>>) \o NormFrom(s, k + 1, FALSE)
-Norm(s) == NormFrom(s, 1, FALSE)
+\* what position k of s contributes: a blank nothing, a line end itself, any other byte itself, preceded by one
+\* blank when the byte before it is a blank
+NormPiece(s, k) ==
+  IF IsBlank(s[k]) THEN << >>
+  ELSE IF s[k] = NL THEN <<NL>>
+  ELSE IF k > 1 /\ IsBlank(s[k - 1]) THEN <<SPC, s[k]>> ELSE <<s[k]>>
+Norm(s) == Flat([k \in 1 .. Len(s) |-> NormPiece(s, k)])
 
 (***************************************************************************)
 (* Assembling: items -> instruction list and tables                        *)
